@@ -97,6 +97,9 @@ def settle(model, V, items):
             continue
         if code != 2:
             what = "%s (clause %d, step %d: %s)" % (JUDGE_TEXT.get(code, "?"), code, pos, step_text(steps, pos))
+            if code == 1 and 0 <= pos < len(steps) and steps[pos][0].startswith("S") and not steps[pos][1]:
+                what += (" - the application's request was accepted by coap_send() but not transmitted: the "
+                         "library holds it back (NSTART slot not free although nothing is in flight)")
             V.violation("property fails on the implementation: " + what,
                         "case: %s\nobserved client trace: %s\nacceptor: clause %d at step %d\n%s\n"
                         % (it["case"], G.fmt_steps(steps), code, pos, what), "oracle")
@@ -284,6 +287,13 @@ def main(run):
                 exe.append((G.exe_line(kind, [(sty, 1, 0)], fates, seed=3, nstart=16 if len(exe) % 2 else 0,
                                        tok0=G.TOK0S[(len(exe) // 2) % len(G.TOK0S)]),
                             "exhaustive-" + kind, True))
+    # keepalive: the session idles long enough for a ping (answered by RST) before and between the
+    # requests; every fate table over the datagrams of the two exchanges
+    for kind in (() if replay_only else ("real", "rfc")):
+        for sty in G.STYLES:
+            for fates in G.exhaustive_fates(4 if quick else 6, 1500):
+                exe.append((G.exe_line(kind, [(sty, 1, 2500), (G.STYLES[(sty + 1) % 5], 1, 4500)], fates, seed=3,
+                                       keepalive=2), "keepalive-" + kind, True))
     # every fate table once more with a zero-length token (quick: one datagram shorter)
     for kind in (() if replay_only else ("real", "rfc")):
         for sty in G.STYLES:
@@ -301,7 +311,7 @@ def main(run):
         reqs = [(r.choice(G.EXE_STYLES), r.choice([1, 1, 1, 0]), r.choice([0, 0, 5, 400, 1800])) for _ in range(nreq)]
         fates = G.random_fates(r, r.choice([4, 8, 12, 20]), heavy=(r.random() < 0.25))
         exe.append((G.exe_line(kind, reqs, fates, seed=r.randrange(1, 1 << 30), method=r.choice([1, 1, 2, 3, 4]),
-                               tok0=r.choice(G.TOK0S + [-1]),
+                               tok0=r.choice(G.TOK0S + [-1]), keepalive=r.choice([0, 0, 0, 2, 3]),
                                cmid0=r.choice([100, 65533, 65535, 41527, 41528, 41529]), smid0=r.choice([-1, -1, 65535, 99, 100]),
                                adelay=r.choice([1, 300, 1200, 2500, 4000]),
                                dflt=r.choice([0, 3, 40, 900]), nstart=r.choice([0, 16, 16])),
@@ -385,7 +395,8 @@ def main(run):
         f = ln.split()
         cmid0 = int(f[f.index("M") + 1])
         ctok0 = int(f[f.index("T") + 1]) if "T" in f[:12] else 0
-        replay.append(G.exc_line([s[0] for s in p["steps"]], mid0=cmid0, tok0=ctok0))
+        ka = int(f[f.index("G") + 1]) if "G" in f[:14] else 0
+        replay.append(G.exc_line([s[0] for s in p["steps"]], mid0=cmid0, tok0=ctok0) if ka == 0 else "exc 4 0 0")
         errs = G.server_shape_errors(p["srv"][1]) if (p.get("srv") and " K real " in ln) else []
         nshape = nshape + 1 if errs else nshape
         if errs and nshape <= 2:
@@ -394,7 +405,8 @@ def main(run):
                         "allow (e.g. a response to a retransmission while the async entry is pending): %s"
                         % errs[0], "case: %s\nserver steps: %s\noffending: %s\nclient trace: %s\n"
                         % (ln, p["srv"][1], errs, G.fmt_steps(p["steps"])), "server")
-        items.append({"case": ln, "steps": p["steps"], "parsed": p, "kind": "exe-" + kind, "srv_errors": errs})
+        items.append({"case": ln, "steps": p["steps"], "parsed": p, "kind": "exe-" + kind, "srv_errors": errs,
+                      "keepalive": ka})
     om, _ = vlib.run_lines_robust(model, replay)
     # the real server's steps replayed on the abstract server of System.v (no request
     # de-duplication = what a libcoap server with these handlers does); only for runs in which the
@@ -427,6 +439,9 @@ def main(run):
         if it is None:
             continue
         want = G.fmt_steps(it["steps"])
+        if it.get("keepalive"):
+            run.hist("model_replay", "skipped: keepalive pings use message ids")
+            continue
         if om[i] != want:
             ndiff += 1
             if ndiff <= 3:
